@@ -379,7 +379,9 @@ class FileScanHelper:
         if did_anything_get_fixed:
             if fix_debug and fix_file_debug:
                 print(f"Copy {temporary_line_file_name} to {next_file}")
-            shutil.copyfile(temporary_line_file_name, next_file)
+            FileScanHelper.__replace_file_contents(
+                temporary_line_file_name, next_file
+            )
         if fix_debug and fix_file_debug:
             print(f"Remove:{temporary_line_file_name}")
         os.remove(temporary_line_file_name)
@@ -391,6 +393,26 @@ class FileScanHelper:
         return did_anything_get_fixed, collected_token_triggers, collected_line_triggers
 
     # pylint: enable=too-many-arguments, too-many-locals
+
+    @staticmethod
+    def __replace_file_contents(source_file: str, destination_file: str) -> None:
+        """
+        Replace the contents of the destination file with those of the source file
+        without ever exposing a truncated or partially written destination file: the
+        new contents are staged next to the destination and then renamed over it.
+        """
+        destination_file = os.path.realpath(destination_file)
+        with tempfile.NamedTemporaryFile(
+            dir=os.path.dirname(destination_file), prefix=".pymarkdown-", delete=False
+        ) as staging_output:
+            staging_file = staging_output.name
+        try:
+            shutil.copyfile(source_file, staging_file)
+            shutil.copymode(destination_file, staging_file)
+            os.replace(staging_file, destination_file)
+        finally:
+            if os.path.exists(staging_file):
+                os.remove(staging_file)
 
     # pylint: disable=too-many-arguments, too-many-locals
     def __process_file_fix_next_level(
